@@ -1,2 +1,5 @@
 pub mod common;
+pub mod c05;
 pub mod c06;
+pub mod c07;
+pub mod c08;
